@@ -416,7 +416,19 @@ impl G<'_> {
                 _ => p.1.saturating_sub(1),
             }
         };
-        match self.rng.below(8) {
+        match self.rng.below(11) {
+            8 => Op::Append(vec![]), // an empty batch
+            9 | 10 => {
+                // update_state moving `last` back (or forth) without touching the entries
+                let l = match self.rng.below(4) {
+                    0 => None,
+                    1 => self.m.st.last.map(|l| (l.0, l.1.saturating_sub(1 + self.rng.below(2)))),
+                    2 => self.m.st.purged,
+                    _ => self.m.st.last.map(|l| (l.0, l.1.saturating_add(1))),
+                };
+                self.m.st.last = l;
+                Op::UpdateLast(l)
+            }
             0 | 1 => {
                 let a = around(self.rng);
                 let b = around(self.rng);
@@ -594,7 +606,7 @@ pub fn gen_spec(prop: &str, run_seed: u64, p: &Profile) -> Spec {
         };
         if let Some(op) = op {
             // an empty append batch is useless
-            if matches!(&op, Op::Append(es) if es.is_empty()) {
+            if matches!(&op, Op::Append(es) if es.is_empty()) && k != 14 {
                 continue;
             }
             ops.push(op);
